@@ -123,7 +123,12 @@ def run(chk):
                        "elements and a non-empty output on which both runs agree.  PLUS (oracle only) the catalogue of "
                        "harness/c08_multi.py: every entry (multi-source, buffering, default/seed/key parameters, "
                        "higher-order over inner hot sources, creation functions, subjects and multicasting with a late "
-                       "second subscriber, time-based operators on a virtual-time scheduler) x seeded explicit scripts "
+                       "second subscriber, time-based operators on a virtual-time scheduler, slice with a negative "
+                       "start and a positive stop (elements wrapped as (index, x)), and the synchronous forms of the "
+                       "bridges that hold a last value: to_future with a concurrent.futures.Future constructor probed "
+                       "after every step and read back through from_future, from_future of a completed future, "
+                       "rx.of(...).run() on its default / immediate / current-thread scheduler, rx.start and "
+                       "rx.to_async on the ImmediateScheduler) x seeded explicit scripts "
                        "interleaving 0-3 hot sources in 6 modes (random, second source first, first source first, last "
                        "first, bursts, round-robin led by the second), terminals C/E/none per source, inline or deferred to the end in "
                        "seeded orders; each run twice (falsy palette vs tokens with the same equality classes) and compared on "
